@@ -229,6 +229,7 @@ fn oracle_combo<C: RangeCombo>(rng: &mut Rng, w: u32, s: u32, bps: &[(u32, Vec<u
             None
         };
         let n = match rng.next() % 8 { 0 => 0, 1 => 1, 2 => 60, _ => rng.next() % 40 } as usize;
+        let want = pick_hunt_class(rng, w, s);
         // some messages end with a directed pair of symbols: new range on the threshold, then
         // an upper end just above a word boundary (the configuration of defect D3)
         // hunt: 0 = none, 1 = D3 configuration (modes 7, 6), 2 = interval ends on / next to word
@@ -240,6 +241,7 @@ fn oracle_combo<C: RangeCombo>(rng: &mut Rng, w: u32, s: u32, bps: &[(u32, Vec<u
         let mut reference = RefCoder::new(s);
         let mut desc = head.clone();
         let mut broken = false;
+        let mut c06_reported = false;
         let mut inverted_steps = 0usize;
         for step in 0..=n {
             // --- at every symbol boundary: snapshot (C07), size queries (C18, C12), sometimes views (C08)
@@ -261,10 +263,10 @@ fn oracle_combo<C: RangeCombo>(rng: &mut Rng, w: u32, s: u32, bps: &[(u32, Vec<u
             // C06: what exporting now returns is what the big-number reference prescribes
             rep.eval("C06");
             let ref_words = reference.words(w, s);
-            if expected[prefix.len()..] != ref_words[..] {
+            if expected[prefix.len()..] != ref_words[..] && !c06_reported {
+                // reported once per message; the other properties are still checked on it
+                c06_reported = true;
                 rep.fail("C06", format!("{} | export => {} but the arbitrary-precision reference coder gives {}", desc, show_list(expected[prefix.len()..].to_vec()), show_list(ref_words)));
-                broken = true;
-                break;
             }
             rep.eval("C12");
             let payload_bits = nb - prefix.len() * w as usize;
@@ -361,9 +363,9 @@ fn oracle_combo<C: RangeCombo>(rng: &mut Rng, w: u32, s: u32, bps: &[(u32, Vec<u
                 (b, p, None)
             };
             let (cdf, sym) = if hunt == 2 && step + 2 == n {
-                hunt_prep::<C>(rng, &coder, w, s, b, p, &pool)
+                hunt_prep::<C>(rng, &coder, w, s, b, p, &pool, want)
             } else if hunt == 2 && step + 1 == n {
-                match hunt_final::<C>(rng, &coder, w, s, b, p, 24) {
+                match hunt_final::<C>(rng, &coder, w, s, b, p, 32, want) {
                     Some((cdf, sym, exact)) => {
                         rep.count(if exact { "C11.hunt.final.wanted_class" } else { "C11.hunt.final.some_class" });
                         (cdf, sym)
